@@ -102,6 +102,8 @@ HARNESS = {
     "h_prob":    (["engine/h_prob.cpp"], ["solver", "core", "riddle", "smt", "json"], ["-lz3", "-lgmpxx", "-lgmp"], []),
     "h_exec":    (["engine/h_prob.cpp"], ["executor", "solver", "core", "riddle", "smt", "json"], ["-lz3", "-lgmpxx", "-lgmp"], ["-DBUILD_LISTENERS", "-DWITH_EXECUTOR"]),
     "h_par":     (["engine/h_par.cpp"], ["smt", "json"], ["-lgmpxx", "-lgmp", "-lpthread"], []),
+    # libFuzzer targets (configuration `fz` only): no rapidcheck driver, linked with -fsanitize=fuzzer
+    "fz_lang":   (["engine/fz_lang.cpp"], ["riddle", "smt", "json"], [], []),
 }
 
 
@@ -121,6 +123,14 @@ def build_harness(cfg, name):
         defs = defs + ["-DBUILD_LISTENERS"]
     opt = "-O1 -g" if btype != "Release" else "-O2"
     common = [comp, "-std=gnu++17"] + opt.split() + cxx.split() + ["-D" + GUARD, "-DVERIF_CFG=\"%s\"" % cfg] + defs + include_flags(d)
+    if name.startswith("fz_"):
+        src = [os.path.join(VERIF, s) for s in srcs]
+        newest = max([os.path.getmtime(x) for x in src] + [os.path.getmtime(os.path.join(libdir, f)) for f in os.listdir(libdir)])
+        if not os.path.exists(out) or os.path.getmtime(out) < newest:
+            cmd = [c.replace("fuzzer-no-link", "fuzzer") for c in common] + src + ["-o", out, "-L" + libdir, "-Wl,-rpath," + libdir] + ["-l" + l for l in libs] + extra
+            run(cmd, log)
+        lk.close()
+        return out
     # the rapidcheck driver TU is slow to compile: separate object, rebuilt only when pbt_main.cpp / pbt.h change
     objs = []
     pbt_src = os.path.join(VERIF, "engine", "pbt_main.cpp")
